@@ -13,6 +13,7 @@ from vt import core
 from vt.main import decide
 import peggen
 import pegdump
+from translate import arpeggio_tr
 
 IMPORTS = "From TxV Require Import Core.Base Core.Show Model.PegSyntax Model.Peg Model.PegShow Proofs.PegProofs.\nOpen Scope string_scope."
 FUEL = 120
@@ -143,7 +144,7 @@ def model_equiv_impl(m, t):
 
 
 def run(chk):
-    chk.prove([])
+    chk.prove([arpeggio_tr.translate])
     n, per = (700, 5) if chk.thorough else (100, 4)
     cases = gen_cases(chk, n, per)
     idx = [list(range(i, len(cases), core.NPROC)) for i in range(core.NPROC)]
@@ -231,7 +232,8 @@ def run(chk):
                        "ignore_case/autokwd) x inputs derived from the grammar with random layout/comments and token/character mutations; each "
                        "parsed by the real parser with memoization off and on and by the Coq interpreter on the dumped parser model; "
                        "non-trivial = accepted, or rejected after position 0; distinct by (grammar, options, input)")
-    chk.assumptions += ["tools/pegdump.py dumps the live Arpeggio parser model faithfully (fail closed on unknown node types)",
+    chk.assumptions += ["tools/translate/arpeggio_tr.py: the functions of the installed arpeggio/__init__.py that Model/Peg.v transcribes hash to the recorded values (fail closed)",
+                        "tools/pegdump.py dumps the live Arpeggio parser model faithfully (fail closed on unknown node types)",
                         "regex terminals: matched lengths supplied by Python's re for the concrete input (oracle table); theorems hold for every oracle",
                         "Arpeggio (dependency) is modelled, validated by this correspondence, not verified"]
     decide(chk, failures, disagreements)
